@@ -182,6 +182,15 @@ def describe(c: Case) -> str:
             f"A = {describe_task(a)} | B = {describe_task(b)}")
 
 
+def prefer(c: Case):
+    """Witness choice: collisions first, then few edits, then plain definitions."""
+    a, b = (dict(zip(FIELDS, v)) for v in (c.info["a"], c.info["b"]))
+    edits = sum(1 for f in FIELDS if freeze(a[f]) != freeze(b[f]))
+    fancy = sum(t["wrap"] + t["deco"] + len(t["part"]) + (t["ovr"] > 0) + len(t["inc"]) + t["nested"] + (t["ver"] > 0)
+                for t in (a, b))
+    return (0 if c.law == "d" else 1, edits, fancy)
+
+
 def cfg(level: int, maxmut: int, invs) -> str:
     return (f"SPECIFICATION Spec\nCONSTANTS\n BaseLevel = {level}\n MaxMut = {maxmut}\n"
             + "".join(f"INVARIANT {i}\n" for i in invs) + "CHECK_DEADLOCK FALSE\n")
@@ -192,7 +201,8 @@ INVS = ["LawIdeal", "AsyncConfined", "DropConfined", "FlatConfined", "LawUnlessD
 
 def forward(ctx: Ctx, w: World, level: int, maxmut: int, spy: TagSpy) -> list[Case]:
     res = expect_clean(tlc(ctx, f"edit pairs (BaseLevel={level}, MaxMut={maxmut})", "hash/TaskHash.tla",
-                           cfg(level, maxmut, INVS), timeout=3000), "TaskHash.tla")
+                           cfg(level, maxmut, INVS), timeout=3000, long_run=not ctx.quick,
+                           workers=ctx.pick(6, 8)), "TaskHash.tla")
     ctx.add_tlc(res)
     recs = res.recs("CASE")
     ctx.require(len(recs) > 1000 and len(recs) == res.distinct,
@@ -328,7 +338,7 @@ def run(ctx: Ctx) -> None:
             ctl = tlc(ctx, "control LawAsBuilt", "hash/TaskHash.tla", cfg(1, 1, ["LawAsBuilt"]), workers=2)
             expect_violation(ctl, "LawAsBuilt", "TaskHash.tla LawAsBuilt control")
             ctx.add_tlc(ctl)
-        j = judge(ctx, cases, DEVS, KEYS, describe)
+        j = judge(ctx, cases, DEVS, KEYS, describe, prefer=prefer)
         note_judgement(ctx, "spec_to_code", j)
         mid = [c for c in cases if c.law == "d"]
         ctx.sample({"source": "TaskHash pair", "A": describe_task(mid[len(mid) // 2].info["a"]),
@@ -340,7 +350,7 @@ def run(ctx: Ctx) -> None:
                     "real": mid[len(mid) // 3].real})
         with timed(ctx, "backward"):
             bcases = backward(ctx, w, ctx.pick(120, 4000))
-        jb = judge(ctx, bcases, DEVS, KEYS, describe)
+        jb = judge(ctx, bcases, DEVS, KEYS, describe, prefer=prefer)
         note_judgement(ctx, "code_to_spec", jb)
     c0 = next(c for c in cases if c.law == "d" and c.real == "d")
     ctx.negative_control(Case(c0.law, c0.vstr, "s", c0.info).violates,
@@ -357,4 +367,4 @@ def replay(ctx: Ctx, rec: dict) -> None:
     w.ensure([a, b])
     out = validate_groups(ctx, [{"items": [a, b], "cls": classes([w.hash(a), w.hash(b)])}], "replay")
     cases = [Case(law, "".join(vs), o, {"a": a, "b": b}, "replay") for _, _, o, law, vs in out[1][1]]
-    judge(ctx, cases, DEVS, KEYS, describe)
+    judge(ctx, cases, DEVS, KEYS, describe, prefer=prefer)
